@@ -6,7 +6,7 @@
    rocq/Proofs/StreamsSpec.v. *)
 From Verif Require Import Lib.Base Model.Streams Proofs.StreamsBase Proofs.StreamsSpec
   Proofs.StreamsStdout Proofs.StreamsOrder Proofs.StreamsFiles Proofs.StreamsMisc Proofs.StreamsWriter
-  Proofs.StreamsPrefix.
+  Proofs.StreamsPrefix Proofs.StreamsTrace.
 
 (* ---------- delivered_in_order ---------- *)
 
@@ -46,6 +46,17 @@ Theorem C13_stdout_prefix :
   sk_data (st_sink s) = firstn L (expected_stdout (st_log s)).
 Proof. exact stdout_prefix. Qed.
 Print Assumptions C13_stdout_prefix.
+
+(* Program order.  The log the theorems above replay is the program's own
+   order: the EvWrite events of a run, oldest first, are print statements of
+   the program, in program order, each with exactly the bytes of that
+   statement and a destination that statement names (statements that fail
+   before writing, or are not reached, contribute nothing). *)
+Theorem C13_program_order :
+  forall E s0 ops s r, writes (st_log s0) = [] -> run E s0 ops = (s, r) ->
+  sub_trace ops (rev (writes (st_log s))).
+Proof. exact program_order. Qed.
+Print Assumptions C13_program_order.
 
 (* the buffer of a file/command stream is a FIFO: flushed ++ kept = old ++ new *)
 Theorem C13_stream_buffer_fifo : forall cap buf p f r, buf_bytes cap buf p = (f, r) -> f ++ r = buf ++ p.
